@@ -79,7 +79,8 @@ RULE = ("random programs (length <= 4) over abelian and fermionic arrays incl. d
         "(block bytes, dict orders, index tables, charge, pending signs, labels) of every live value before and after "
         "each step; afterwards every result is mutated through all in-place methods and dict writes and the operands "
         "are snapshotted again; every operation with an inplace flag is run in place on a copy and compared with the "
-        "out-of-place result. non-trivial: the operation has an in-place code path (`self if inplace else copy`)")
+        "out-of-place result. non-trivial: the operation has an in-place code path (`self if inplace else copy`)"
+        '; for in-place calls both the object the method was called on and the returned object are compared; fuse groups may be empty')
 ANCHORS = {"abelian_core.py": ["copy", "copy_with", "modify", "transpose", "conj", "squeeze", "expand_dims", "fuse",
                                "unfuse", "reshape", "multiply_diagonal", "sync_charges", "drop_misaligned_sectors"],
            "fermionic_core.py": ["copy", "copy_with", "modify", "phase_flip", "phase_transpose", "phase_sector",
